@@ -298,9 +298,19 @@ func (o *OperandPegImpl) CalcOffsetByteSize() int {
 			return 4 // disp32
 		}
 
+		// ベースレジスタなしのインデックス指定 ([index*scale+disp]) は SIB base=101, mod=00 で
+		// 常に disp32 を伴う
+		if memInfo.BaseReg == "" && memInfo.IndexReg != "" && strings.HasPrefix(memInfo.IndexReg, "E") {
+			return 4
+		}
+
 		// 2. 間接アドレス指定 ([reg+disp], [reg+reg*scale+disp] など)
 		// ディスプレースメントがない場合は 0 バイト (ただし16bitの[BP]は例外)
 		if memInfo.Displacement == 0 {
+			// [EBP] / [EBP+index*scale] は mod=00 で表せないため disp8=0 を伴う
+			if memInfo.BaseReg == "EBP" {
+				return 1
+			}
 			// Special case: [BP] in 16-bit mode uses ModRM mode 01 with disp8=0.
 			if o.bitMode == cpu.MODE_16BIT && memInfo.BaseReg == "BP" && memInfo.IndexReg == "" {
 				return 1 // disp8=0 for [BP]
